@@ -404,5 +404,6 @@ EventuallyClosed == \A c \in Conns : accepted[c] ~> closed[c]
 ReturnsToZero == <>[](nrConns = 0 \/ mpc = "gone")
 ReapedWhenExpired == \A c \in Conns : (InKeep(c) /\ ttl[c] = 0 /\ alive) ~> (~InKeep(c) \/ ~alive)
 \* C18/C04 view: nothing that has arrived is abandoned at loop exit
-NoPendingDroppedAtExit == (mpc = "shutdown" /\ ~parentDead) => \A c \in reg : ~pend[c]
+NoPendingDroppedAtExit ==
+  [][(mpc = "top" /\ mpc' = "shutdown") => \A c \in reg : ~pend[c]]_vars
 =============================================================================
